@@ -33,7 +33,7 @@ theorem GoalV.prefix {fn ab : Bool} {lp : LoopCtx} {ip : Nat} {locs ops g : Arra
     (h : GoalV W Γb Λ nl below fr fn ab lp ip1 locs1 ops1 g1 l1 endIp base st1 r) :
     GoalV W Γb Λ nl below fr fn ab lp ip locs ops g l endIp base st r := by
   rcases h with h | h
-  · exact .inl (Fails.after n hpre h)
+  · exact .inl (Ovf.after n hpre h)
   · refine .inr ?_
     cases r with
     | val v st' => obtain ⟨mv, hmv, hre⟩ := h; exact ⟨mv, hmv, hre.prefix n hpre ho⟩
@@ -51,7 +51,7 @@ theorem GoalEs.prefix {fn : Bool} {ip : Nat} {locs ops g : Array Value} {l : Val
     (h : GoalEs W Γb Λ nl below fr fn ip1 locs1 ops g1 l1 endIp st1 r) :
     GoalEs W Γb Λ nl below fr fn ip locs ops g l endIp st r := by
   rcases h with h | h
-  · exact .inl (Fails.after n hpre h)
+  · exact .inl (Ovf.after n hpre h)
   · refine .inr ?_
     cases r with
     | val v st' => obtain ⟨mv, hmv, hre⟩ := h; exact ⟨mv, hmv, hre.prefix n hpre ho⟩
@@ -137,7 +137,7 @@ theorem GoalU.seq {W : World} {Γb Λ Γb2 Λ2 : Gam} (d c : Gam) {nl : Nat} {be
     (h : GoalU W (d ++ Γb) (c ++ Λ) Γb2 Λ2 nl below fr fn ab lp ip1 locs1 ops g1 l1 endIp st1 r) :
     GoalU W Γb Λ Γb2 Λ2 nl below fr fn ab lp ip locs ops g l endIp st r := by
   rcases h with h | h
-  · exact .inl (Fails.after n hpre h)
+  · exact .inl (Ovf.after n hpre h)
   · refine .inr ?_
     cases r with
     | val v st' => exact Reach.prefix n hpre ho h
